@@ -2,7 +2,8 @@
 from ..guards import world_of, conflict, is_guard_ty
 from ..callgraph import cg_of
 from ..roles import roles_of
-from ..defuse import du_of, walk
+from ..defuse import du_of, walk, peel, callee_name
+from ..conds import lits_of
 
 TEXT = ("Static lock-discipline analysis over the MIR of every function and closure of the crate (all cargo "
         "feature configurations analysed): a move/drop-sensitive held-guard dataflow gives the set of "
@@ -12,8 +13,10 @@ TEXT = ("Static lock-discipline analysis over the MIR of every function and clos
         "parallel region the lock-order relation of the tasks has no cycle, no recursive read is combined with a "
         "writer of the same RwLock, and no task enters rayon while holding an exclusive guard; R3: no guard "
         "escapes (returned / stored), so the held-set analysis is complete. Decides the 'never blocks forever on "
-        "libmelda's own locks' clause for one client thread and any pool size; does not decide loop termination "
-        "or data-dependent panics.")
+        "libmelda's own locks' clause for one client thread and any pool size. R4: on the read path no explicit panic "
+        "is dominated by the miss edge of a lookup in a keyed collection (the one structurally decidable class of "
+        "data-dependent abort). Does not decide loop termination or other data-dependent panics (unwrap/expect on "
+        "storage errors, poisoned locks).")
 TECHNIQUE = 'static analysis over rustc MIR: held-guard dataflow with receiver-sensitive lock identity, transitive acquisition summaries over the call graph (closures, dyn Adapter fan-out), lock-order cycles, parallel-region read/write conflicts, guard escape'
 TRUSTED = ["rustc nightly MIR construction and callee resolution",
            "std::sync semantics: Mutex is not re-entrant, RwLock may be writer-preferring",
@@ -202,6 +205,69 @@ def run(facts, res):
                 if is_guard_ty(f["ty"]):
                     res.violation("R3", sp + "." + f["name"] + "|stores-guard", "struct %s stores a lock guard in field %s" % (sp, f["name"]))
     res.instance("R3", "%d function signatures and struct fields inspected for guard types" % n3, None)
+
+    # ---------------------------------------------------------------- R4 explicit panics on a lookup miss
+    # One class of data-dependent abort is structural: an explicit panic!() on the None edge of a lookup in a keyed
+    # collection that is filled from replica state, on the read path. Which keys the collection holds (objects whose winner
+    # is not a deletion) and which keys are looked up (references stored inside other objects) are decided independently,
+    # so the miss is reachable (a winning root that still references an array deleted concurrently).
+    res.rule("R4", "no explicit panic on a lookup miss in the document reconstruction (read path)")
+    rd = facts.body("melda::Melda::read")
+    n4 = 0
+    if rd is not None:
+        members = {k: v for k, v in cg.reach(rd).items() if v.in_repo()}
+        for cb_ in facts.closures_of(rd.path):
+            members.update({k: v for k, v in cg.reach(cb_).items() if v.in_repo()})
+        for mp, m in sorted(members.items()):
+            for bi, t in m.calls():
+                c = t.callee
+                if c is None or not (c.path.startswith("core::panicking::") or "begin_panic" in c.path or c.path.startswith("std::rt::panic")):
+                    continue
+                n4 += 1
+                miss = []
+                for l in lits_of(m, bi, facts):
+                    if l.kind == "variant" and l.variants == {"None"}:
+                        pt = peel(l.term)
+                        while pt[0] == "var":
+                            pt = peel(pt[3])
+                        if pt[0] == "call" and callee_name(pt) in ("remove", "get", "get_mut", "remove_entry") and pt[4] is not None and \
+                                any(k_ in (pt[4].path or "") + (pt[4].self_ty or "") for k_ in ("HashMap", "BTreeMap")):
+                            miss.append(callee_name(pt))
+                res.instance("R4", "%s: explicit panic at line %s; on a lookup miss: %s" % (mp, t.line, bool(miss)), m.loc(t.line))
+                if miss:
+                    res.violation("R4", "%s|panic-on-lookup-miss" % mp,
+                                  "%s (reachable from read) panics when `%s` on a keyed collection finds nothing: the collection holds the objects whose winner is "
+                                  "not a deletion, the key comes from a reference stored in another object, and nothing ties the two together (a winning "
+                                  "root can reference an array that was deleted concurrently): read() aborts the calling thread" % (mp, miss[0]), m.loc(t.line))
+        # ... and the same through unwrap/expect applied directly to the Option such a lookup returns
+        for mp, m in sorted(members.items()):
+            mdu = du_of(m)
+            for bi, t in m.calls():
+                c = t.callee
+                if c is None or c.name not in ("unwrap", "expect") or not t.args:
+                    continue
+                x = mdu.operand_term(t.args[0], 14)
+                hops = 0
+                while hops < 20 and x[0] in ("ref", "deref", "cast", "var"):
+                    hops += 1
+                    x = x[3] if x[0] == "var" else x[1]
+                if x[0] != "call" or x[4] is None or callee_name(x) not in ("get", "remove", "get_mut") or \
+                        not any(k_ in (x[4].path or "") + (x[4].self_ty or "") for k_ in ("HashMap<", "BTreeMap<", "HashMap::", "BTreeMap::")):
+                    continue
+                if "serde_json" in (x[4].path or "") + (x[4].self_ty or ""):
+                    continue
+                n4 += 1
+                rroots = {(y[0], y[1]) for y in walk(x[2][0]) if y[0] in ("var", "param", "upvar")} if x[2] else set()
+                guarded = any(l.kind == "call" and callee_name(l.term) == "contains_key" and l.truth is True and l.term[2] and
+                              rroots & {(y[0], y[1]) for y in walk(l.term[2][0]) if y[0] in ("var", "param", "upvar")}
+                              for l in lits_of(m, bi, facts))
+                res.instance("R4", "%s: %s() on the result of a map lookup at line %s; membership tested on the same map: %s" % (mp, c.name, t.line, guarded), m.loc(t.line))
+                if not guarded:
+                    res.violation("R4", "%s|unwrap-on-lookup-miss" % mp,
+                                  "%s (read path) calls %s() on the result of `%s` on a keyed collection without a dominating membership test on that collection: "
+                                  "the collection holds only objects whose winner is not a deletion, so e.g. read(None) after the default root was replaced "
+                                  "aborts the calling thread instead of returning an error" % (mp, c.name, callee_name(x)), m.loc(t.line))
+    res.floor("R4", "explicit panic sites on the read path", n4, 1)
 
 
 def _validate_exception(subj, body, site, bl, tok, facts=None, marker=None):
